@@ -139,7 +139,8 @@ func c20CheckScan(c *kit.Case, d *gen.Doc, truth []c20Obj, xf *kit.XFile, data [
 		}
 		lengthKnown := lengthKnown(t)
 		body := t.w.Body
-		endsInEOL := len(body) > 0 && (body[len(body)-1] == '\r' || body[len(body)-1] == '\n')
+		// "…\r" + "\nendstream" reads as a CR LF marker: the one undecidable ending
+		endsInCR := len(body) > 0 && body[len(body)-1] == '\r'
 		rc, err := pdf.DecodeStream(c20Getter{d.Cfg.Version}, nil, stm)
 		var got []byte
 		if err == nil {
@@ -149,8 +150,8 @@ func c20CheckScan(c *kit.Case, d *gen.Doc, truth []c20Obj, xf *kit.XFile, data [
 		if !lengthKnown {
 			c.R.Count("streams_with_lost_length_object", 1)
 			// with the length object cut off the extent is recovered from the
-			// keyword; a trailing EOL of the raw data is then undecidable
-			if len(t.w.Filters) > 0 || endsInEOL || bytes.Contains(body, []byte("endstream")) {
+			// keyword; a trailing CR of the raw data is then undecidable
+			if len(t.w.Filters) > 0 || endsInCR || bytes.Contains(body, []byte("endstream")) {
 				continue
 			}
 		}
@@ -512,8 +513,12 @@ func TestVerifC20(t *testing.T) {
 		cfg.MaxOps = 2 + c.Rng.Intn(3)
 		seed := c.Rng.Uint64()
 		base := 1024 + c.Rng.Intn(3)*1024
-		for delta := 0; delta < 1024; delta++ {
+		// (every length twice: the data ends in a regular byte, or in an end-of-line
+		// byte of its own in front of the marker)
+		for i := 0; i < 2*1024; i++ {
+			delta := i / 2
 			cfg.LongBodyLen = base + delta
+			cfg.LongBodyEOL = i%2 == 1
 			d, err := gen.BuildDoc(kit.NewRand(seed), cfg)
 			if err != nil {
 				c.Violationf("writer-refused-valid-call", "%v", err)
